@@ -67,10 +67,11 @@ Theorem fault_atomic_partial : forall cl tfd frs k st, scen_ok frs st -> k < tot
   at_fdopen frs k = false -> fault_outcome cl tfd frs k st.
 Proof. exact fault_atomic_partial_lemma. Qed.
 
-(* the instance that describes the current source *)
-Theorem fault_atomic_for_code :
-  if fdopen_cleans then fault_atomic_statement true else ~ fault_atomic_statement false.
-Proof. unfold fdopen_cleans; simpl; first [exact fault_atomic_fixed_lemma | exact fault_atomic_refuted_lemma]. Qed.
+(* the current source (fdopen_cleans is regenerated from src/flush.c at every
+   run; since fix 493849b it is `true`): the full statement.  Should the
+   clean-up disappear again this proof no longer checks. *)
+Theorem fault_atomic : fault_atomic_statement fdopen_cleans.
+Proof. exact fault_atomic_fixed_lemma. Qed.
 
 Example hypotheses_satisfiable : exists frs st, scen_ok frs st /\ 1 < total_len frs /\ at_fdopen frs 0 = false.
 Proof. exact scenario_example. Qed.
